@@ -372,6 +372,14 @@ class SymInt(object):
     __rpow__ = __pow__
 
     def _cmp(self, o, kind):
+        if type(o) is builtins.float and o == o and o not in (builtins.float('inf'), -builtins.float('inf')):
+            # integer against a finite float: exact integer comparison (x < f  <=>  x < ceil(f);  x <= f  <=>  x <= floor(f))
+            import math
+            fl, ce = math.floor(o), math.ceil(o)
+            if fl != ce:
+                if kind == 'eq': return False
+                if kind == 'ne': return True
+            o = {'eq': fl, 'ne': fl, 'lt': ce, 'ge': ce, 'le': fl, 'gt': fl}[kind]
         o2 = SymInt.lift(o)
         if o2 is None:
             if kind == 'eq': return False
@@ -1051,9 +1059,7 @@ class SymByteArray(list):
 
 def sx_bytearray(x=b''):
     x = list(x) if not isinstance(x, builtins.int) else [0] * x
-    if any(isinstance(v, SymInt) for v in x):
-        return SymByteArray(x)        # a mutable list stands for the bytearray
-    return bytearray(x)
+    return SymByteArray(x)        # a mutable list stands for the bytearray (symbolic bytes may be stored into it later)
 
 
 def sx_isinstance(o, cls):
